@@ -761,3 +761,132 @@ func secretFromProvider(c *Ctx, r *Report, rule, consequence string) {
 		r.check(len(bad) == 0, rule, name, c.pos(fn.Pos()), "no package state", "%s: %s", strings.Join(uniqStrings(bad), "; "), consequence)
 	}
 }
+
+// pointerLimitAdmitsOwnOutput: the unpacker's hop limit admits what the packer can produce: a name of 127 one-octet
+// labels can sit behind one whole-name pointer plus one pointer per label but the last: 127 hops.
+func pointerLimitAdmitsOwnOutput(c *Ctx, r *Report, rule string) {
+	r.rule(rule, 1, "maxCompressionPointers is at least (maxDomainNameWireOctets+1)/2 - 1")
+	maxPtr, ok1 := c.constInt("maxCompressionPointers")
+	maxName, ok2 := c.constInt("maxDomainNameWireOctets")
+	if !ok1 || !ok2 {
+		r.cerr(rule, "maxCompressionPointers", "constant not found")
+		return
+	}
+	need := (maxName+1)/2 - 1
+	r.check(maxPtr >= need, rule, "maxCompressionPointers", "", fmt.Sprintf("%d >= %d", maxPtr, need), "maxCompressionPointers = %d, but a name of %d one-octet labels whose suffixes were all packed before, used a second time, is written as a pointer to itself: %d labels behind %d pointers. Pack with Compress emits it, UnpackDomainName refuses it with 'too many compression pointers', so the compressed form of a message does not decode to the message", maxPtr, need, need, need)
+}
+
+// stubUntouched: TsigGenerateWithProvider leaves the caller's stub TSIG as it found it (it stays on the message so
+// that the message can be signed again): the signer's defaults - time signed now, fudge 300 - go into a copy, or a
+// stub that asked for "now" is frozen at the time of its first signature.
+func stubUntouched(c *Ctx, r *Report, rule string) {
+	r.rule(rule, 1, "TsigGenerateWithProvider stores nothing into the TSIG record it takes from the caller's message")
+	fn := c.ssaFunc("TsigGenerateWithProvider")
+	if fn == nil {
+		r.cerr(rule, "TsigGenerateWithProvider", "function not found")
+		return
+	}
+	r.fn("TsigGenerateWithProvider")
+	var stub ssa.Value
+	allInstrs(fn, func(in ssa.Instruction) {
+		if ta, ok := in.(*ssa.TypeAssert); ok && typeStr(ta.AssertedType) == "*TSIG" && anyIn(sliceOf(ta.X), readsField("Msg", "Extra")) {
+			stub = ta
+		}
+	})
+	if stub == nil {
+		r.undecided(rule, "TsigGenerateWithProvider", c.pos(fn.Pos()), "the stub taken from m.Extra was not found")
+		return
+	}
+	var bad []string
+	allInstrs(fn, func(in ssa.Instruction) {
+		st, ok := in.(*ssa.Store)
+		if !ok {
+			return
+		}
+		fa, ok := st.Addr.(*ssa.FieldAddr)
+		if !ok {
+			return
+		}
+		base := fa.X
+		for {
+			if f2, ok := base.(*ssa.FieldAddr); ok {
+				base = f2.X
+				continue
+			}
+			break
+		}
+		if base == stub {
+			bad = append(bad, fmt.Sprintf("%s stores into its %s", c.pos(st.Pos()), fieldNameOf(fa)))
+		}
+	})
+	sort.Strings(bad)
+	r.check(len(bad) == 0, rule, "TsigGenerateWithProvider:stub", c.pos(fn.Pos()), "read only", "%s: the defaults written into the caller's stub stay there, so the same message signed again later carries the time of its first signature and is refused with BADTIME once that is older than the fudge", strings.Join(bad, "; "))
+}
+
+// writeDeadline: a handler that writes to a TCP peer which has stopped reading must come back, or Shutdown waits for
+// ever: response.Write arms a write deadline before every write to the stream (unless the writer was built without
+// a timeout, which the server never does: serveTCPConn takes it from getWriteTimeout).
+func writeDeadline(c *Ctx, r *Report, rule string) {
+	r.rule(rule, 2, "response.Write arms SetWriteDeadline before it writes to the TCP connection; serveTCPConn gives the writer the server's write timeout")
+	fn := c.ssaFunc("response.Write")
+	if fn == nil {
+		r.cerr(rule, "response.Write", "function not found")
+		return
+	}
+	r.fn("response.Write")
+	n := 0
+	allInstrs(fn, func(in ssa.Instruction) {
+		call, ok := in.(*ssa.Call)
+		if !ok || !call.Call.IsInvoke() || call.Call.Method.Name() != "Write" || !anyIn(sliceOf(call.Call.Value), readsField("response", "tcp")) {
+			return
+		}
+		n++
+		// on every path from the entry to the write: a SetWriteDeadline on w.tcp, or writeTimeout > 0 known false
+		removed := map[*ssa.BasicBlock]bool{}
+		allInstrs(fn, func(in2 ssa.Instruction) {
+			if c2, ok := in2.(*ssa.Call); ok && c2.Call.IsInvoke() && c2.Call.Method.Name() == "SetWriteDeadline" && anyIn(sliceOf(c2.Call.Value), readsField("response", "tcp")) {
+				removed[c2.Block()] = true
+			}
+		})
+		// the edge taken when writeTimeout > 0 is false counts as passed too (a writer built without a timeout)
+		cut := map[edge]bool{}
+		for _, b := range fn.Blocks {
+			iff, ok := b.Instrs[len(b.Instrs)-1].(*ssa.If)
+			if !ok {
+				continue
+			}
+			bin, ok := iff.Cond.(*ssa.BinOp)
+			if !ok || !anyIn(sliceOf(bin.X), readsField("response", "writeTimeout")) {
+				continue
+			}
+			if k, isK := constIntOf(bin.Y); isK && k == 0 {
+				switch bin.Op {
+				case token.GTR, token.NEQ:
+					cut[edge{b, b.Succs[1]}] = true
+				case token.LEQ, token.EQL:
+					cut[edge{b, b.Succs[0]}] = true
+				}
+			}
+		}
+		armed := len(removed) > 0 && (removed[call.Block()] || !reach(fn.Blocks[0], cut, removed)[call.Block()])
+		r.check(armed, rule, fmt.Sprintf("response.Write:tcp#%d", n), c.pos(call.Pos()), "deadline armed", "the write to the TCP connection is made without a write deadline: a client that sends a query and never reads blocks the handler in WriteMsg for ever, the drain in serveTCP never ends, and Shutdown never returns (ShutdownContext: not before its context expires) although Server.WriteTimeout is documented")
+	})
+	if n == 0 {
+		r.undecided(rule, "response.Write", c.pos(fn.Pos()), "no write to w.tcp found")
+	}
+	sv := c.ssaFunc("Server.serveTCPConn")
+	if sv == nil {
+		r.cerr(rule, "Server.serveTCPConn", "function not found")
+		return
+	}
+	r.fn("Server.serveTCPConn")
+	set := false
+	allInstrs(sv, func(in ssa.Instruction) {
+		if st, ok := in.(*ssa.Store); ok && readsField("response", "writeTimeout")(st.Addr) {
+			if call, ok := st.Val.(*ssa.Call); ok && calleeNameSSA(&call.Call) == "(Server).getWriteTimeout" {
+				set = true
+			}
+		}
+	})
+	r.check(set, rule, "Server.serveTCPConn:writeTimeout", c.pos(sv.Pos()), "srv.getWriteTimeout()", "the response writer of a TCP connection is not given the server's write timeout: response.Write then arms no deadline")
+}
